@@ -5,8 +5,12 @@ Independent specifications of C12 (gate) and C13 (binding by name), written from
 * `specValidate`  — what one Parameter does with one value: the None rule, then the full chain (conversion, then the
   validators) as a left fold, each step receiving its predecessor's output.
 * `gate`          — C12: the items of a call in processing order (keywords in the caller's order, positionals in signature
-  order, then the declared parameters the caller did not supply, in declaration order); the first failing item decides;
+  order, for a function with a VAR_POSITIONAL parameter the surplus positionals paired with the declared parameters the caller
+  did not supply, then the remaining declared parameters, in declaration order); the first failing item decides;
   the journal lists every validator invocation that the property allows to happen.
+* `specFindP`, `specDefault`, `specFlask` — the specification's own reading of "the Parameter declared for a name", "the default
+  the signature gives a name" and of the trailing strict block for Flask JSON requests (nothing of the model is called; the
+  equations with the model's `findP`, `Sig.default?`, `flaskCheck` are proved in `Props/C12.lean`).
 * `byName`        — C13: the binding the body must observe, parameter by parameter: caller value (unless ignore_input),
   else external value, else Parameter default, else signature default; then Python's own defaults.
 -/
@@ -40,6 +44,15 @@ def specValidate (p : VParam) (v : PV) : Except VExc PV :=
 
 /-! ### C12: the gate -/
 
+/-- the Parameter declared for a name: `@validate(Parameter('a', …), Parameter('a', …))` — the last declaration wins -/
+def specFindP (ps : List VParam) (k : Name) : Option VParam := ps.reverse.find? (·.name == k)
+
+/-- the default value the signature gives the parameter called `n` (none: no such parameter, or no default) -/
+def specDefault (sig : Sig) (n : Name) : Option PV :=
+  match (sig.pos ++ sig.kwOnly).filter (·.name == n) with
+  | s :: _ => s.dflt
+  | [] => Option.none
+
 /-- a validator invocation: (parameter name, index of the validator in `validators`, the value it received) -/
 abbrev JEntry := Name × Nat × PV
 
@@ -56,20 +69,37 @@ def specJournal (p : VParam) (v : PV) : List JEntry :=
 
 inductive Item where
   | kw (k : Name) (v : PV)          -- a keyword argument
-  | surplusPos                      -- more positionals than the signature takes
+  | surplusPos                      -- more positionals than the signature takes (no VAR_POSITIONAL parameter)
   | pos (k : Name) (v : PV)         -- a positional argument, bound to signature parameter `k`
+  | surplusLeft                     -- `strict`: more surplus positionals than declared parameters left to take them
+  | zip (p : VParam) (v : PV)       -- a surplus positional (`*args`), validated by and filed under declared parameter `p`
   | absent (p : VParam)             -- a declared parameter the caller did not supply
 
 /-- the caller supplied a value for this name -/
 def supplied (sig : Sig) (args : List PV) (kw : List (Name × PV)) (n : Name) : Bool :=
   (kw.any (·.1 == n)) || ((sig.posNames.take args.length).contains n)
 
+/-- the surplus positionals of a call of a function with a VAR_POSITIONAL parameter: what does not fit the named positional
+    parameters, in order — all of them, equal values and all -/
+def surplusArgs (sig : Sig) (args : List PV) : List PV := if sig.varArgs then args.drop sig.pos.length else []
+
+/-- the declared parameters the caller supplied neither by keyword nor positionally, in declaration order -/
+def unsupplied (c : Cfg) (args : List PV) (kw : List (Name × PV)) : List VParam :=
+  c.ps.filter (fun p => !supplied c.sig args kw p.name)
+
+/-- the surplus positionals are handed, in order, to the unsupplied declared parameters, in declaration order -/
+def zipped (c : Cfg) (args : List PV) (kw : List (Name × PV)) : List (PV × VParam) :=
+  (surplusArgs c.sig args).zip (unsupplied c args kw)
+
 def gateItems (c : Cfg) (args : List PV) (kw : List (Name × PV)) : List Item :=
   if c.ignoreInput then c.ps.map .absent else
     kw.map (fun kv => .kw kv.1 kv.2)
-    ++ (if args.length > c.sig.pos.length then [.surplusPos] else [])
+    ++ (if args.length > c.sig.pos.length && !c.sig.varArgs then [.surplusPos] else [])
     ++ (c.sig.posNames.zip args).map (fun kv => .pos kv.1 kv.2)
-    ++ ((c.ps.filter (fun p => !supplied c.sig args kw p.name)).map .absent)
+    -- `strict`: a surplus positional that no declared parameter is left to take is an argument without declared Parameter
+    ++ (if c.strict && (surplusArgs c.sig args).length > (unsupplied c args kw).length then [.surplusLeft] else [])
+    ++ (zipped c args kw).map (fun ap => .zip ap.2 ap.1)
+    ++ (((unsupplied c args kw).filter (fun p => !((zipped c args kw).map (·.2.name)).contains p.name)).map .absent)
 
 /-- the first parameter of the signature `def f(<pos…>, [*<var>,] [<kwOnly…>])` -/
 def firstParameter (sig : Sig) : Option Name :=
@@ -88,21 +118,24 @@ def specReceiver (sig : Sig) : Option Name :=
 
 /-- the validator invocations the property allows for one item -/
 def itemJournal (c : Cfg) : Item → List JEntry
-  | .kw k v | .pos k v => match findP c.ps k with | some p => specJournal p v | Option.none => []
-  | .surplusPos => []
+  | .kw k v | .pos k v => match specFindP c.ps k with | some p => specJournal p v | Option.none => []
+  | .surplusPos | .surplusLeft => []
+  | .zip p v => specJournal p v
   | .absent p => match p.ext with | some v => specJournal p v | Option.none => []
 
 /-- effect of one item: `.ok (some (n, v))` = the body may see `v` under `n` -/
 def itemOut (c : Cfg) : Item → Except VExc (Option (Name × PV))
   | .kw k v =>
-    match findP c.ps k with
+    match specFindP c.ps k with
     | some p => (specValidate p v).map (fun w => some (k, w))
     | Option.none => if c.strict then .error .tooMany else .ok (some (k, v))
   | .surplusPos => .error .validate
   | .pos k v =>
-    match findP c.ps k with
+    match specFindP c.ps k with
     | some p => (specValidate p v).map (fun w => some (k, w))
     | Option.none => if c.strict && some k != specReceiver c.sig then .error .tooMany else .ok (some (k, v))
+  | .surplusLeft => .error .tooMany
+  | .zip p v => (specValidate p v).map (fun w => some (p.name, w))
   | .absent p =>
     match p.ext with
     | some v => (specValidate p v).map (fun w => some (p.name, w))
@@ -111,13 +144,24 @@ def itemOut (c : Cfg) : Item → Except VExc (Option (Name × PV))
       match p.dflt with
       | some d => .ok (some (p.name, d))
       | Option.none =>
-        match c.sig.default? p.name with
+        match specDefault c.sig p.name with
         | some d => .ok (some (p.name, d))
         | Option.none => .error .validate
 
+/-- the trailing strict block: under `strict`, when every declared Parameter is a `FlaskJsonParameter` and the request carries a
+    JSON body, a key of that body for which no Parameter is declared raises `TooManyArguments`; touching the request outside a
+    request context is Flask's `RuntimeError` -/
+def specFlask (c : Cfg) (res : Assoc) : Except VExc Assoc :=
+  if c.strict && c.ps.all (fun p => (specFindP c.ps p.name).all (·.flaskJson)) then
+    match c.req with
+    | .noContext => .error .flaskOutsideContext
+    | .notJson => .ok res
+    | .json keys => if keys.all (fun k => (specFindP c.ps k).isSome) then .ok res else .error .tooMany
+  else .ok res
+
 /-- the items in processing order; the first failing item decides -/
 def gateOut (c : Cfg) : List Item → Assoc → Except VExc Assoc
-  | [], res => flaskCheck c.ps c.strict c.req res
+  | [], res => specFlask c res
   | it :: rest, res =>
     match itemOut c it with
     | .error e => .error e
@@ -136,7 +180,7 @@ structure GateOut where
   journal : List JEntry
   out : Except VExc Assoc
 
-/-- C12 for functions without `*args`: validator invocations and the dict handed over (or the exception raised) -/
+/-- C12: validator invocations and the dict handed over (or the exception raised) -/
 def gate (c : Cfg) (args : List PV) (kw : List (Name × PV)) : GateOut :=
   ⟨gateJournal c (gateItems c args kw), gateOut c (gateItems c args kw) []⟩
 
@@ -148,9 +192,9 @@ def allowedValues (c : Cfg) (args : List PV) (kw : List (Name × PV)) : List PV 
   let inputs := args ++ kw.map (·.2) ++ c.ps.filterMap (·.ext)
   (c.ps.flatMap fun p =>
       (inputs.filterMap fun a => match specValidate p a with | .ok w => some w | .error _ => Option.none)
-      ++ (if p.specRequired then [] else p.dflt.toList ++ (c.sig.default? p.name).toList))
-    ++ (kw.filter (fun kv => (findP c.ps kv.1).isNone)).map (·.2)
-    ++ ((c.sig.posNames.zip args).filter (fun kv => (findP c.ps kv.1).isNone)).map (·.2)
+      ++ (if p.specRequired then [] else p.dflt.toList ++ (specDefault c.sig p.name).toList))
+    ++ (kw.filter (fun kv => (specFindP c.ps kv.1).isNone)).map (·.2)
+    ++ ((c.sig.posNames.zip args).filter (fun kv => (specFindP c.ps kv.1).isNone)).map (·.2)
     ++ c.sig.named.filterMap (·.dflt)
 
 /-! ### C13: binding by name -/
@@ -173,7 +217,7 @@ def strictRefuses (c : Cfg) (args : List PV) (name : Name) : Bool :=
 /-- per-parameter result: `none` = nothing is handed over for this name -/
 def byNameOne (c : Cfg) (args : List PV) (kw : List (Name × PV)) (s : SParam) : Except VExc (Option PV) :=
   let inp := if c.ignoreInput then Option.none else callerInput c.sig args kw s.name
-  match findP c.ps s.name with
+  match specFindP c.ps s.name with
   | some p =>
     match inp with
     | some v => (specValidate p v).map some
